@@ -5,9 +5,12 @@
 package drv
 
 import (
+	"fmt"
+	"os"
 	"runtime"
 	"sort"
 	"strings"
+	"sync/atomic"
 	"time"
 
 	"qchen.fun/fatchoy/sched"
@@ -181,6 +184,32 @@ func probeSx(impl int64, d sched.VerifDriver) Sx {
 	return ListOf(l)
 }
 
+// progress counter and watchdog: a history that does not advance for two minutes (an API
+// call or worker step of the implementation that never returns) ends the harness with a
+// goroutine dump instead of hanging it.
+var progress int64
+
+// Alive tells the watchdog that the harness is making progress (long Go-side sweeps).
+func Alive() { atomic.AddInt64(&progress, 1) }
+
+func init() {
+	go func() {
+		last, since := int64(-1), time.Now()
+		for {
+			time.Sleep(2 * time.Second)
+			p := atomic.LoadInt64(&progress)
+			if p != last {
+				last, since = p, time.Now()
+			} else if p > 0 && time.Since(since) > 2*time.Minute {
+				buf := make([]byte, 1<<20)
+				n := runtime.Stack(buf, true)
+				fmt.Fprintf(os.Stderr, "harness watchdog: no progress for 2 minutes\n%s\n", buf[:n])
+				os.Exit(3)
+			}
+		}
+	}()
+}
+
 // Run executes the history of `in` = (impl cur0 tt0 (op ...)) and returns (obs ...).
 func Run(in Sx) Sx {
 	impl := in.At(0).Int64()
@@ -191,6 +220,7 @@ func Run(in Sx) Sx {
 	const capQ = sched.PendingQueueCapacity
 loop:
 	for i := 0; i < ops.Len(); i++ {
+		atomic.AddInt64(&progress, 1)
 		op := ops.At(i)
 		switch op.At(0).Int64() {
 		case OpStart, OpEvery:
@@ -213,7 +243,9 @@ loop:
 			}
 		case OpCancel:
 			id := int(op.At(1).Int64())
-			mayBlock := x.d.PendingDel()+len(x.blockedDel) >= capQ && x.tm.IsScheduled(id)
+			// (whether the id is scheduled is the implementation's business: the call is
+			// made on a separate goroutine whenever the channel is full)
+			mayBlock := x.d.PendingDel()+len(x.blockedDel) >= capQ
 			code, v, pc := x.call(mayBlock, -1, func() int64 {
 				if x.tm.Cancel(id) {
 					return 1
